@@ -589,6 +589,12 @@ func genPlan(rng *hx.Rng, w *world, g, n int, allowClose bool) []call {
 
 			continue
 		}
+		if rng.Chance(1, 40) {
+			c.kind = "realm" // Realm(): lock-free, flag-free accessor; the caller overwrites what it got
+			plan = append(plan, c)
+
+			continue
+		}
 		switch x := rng.Intn(100); {
 		case x < 24:
 			c.kind, c.val = "set", val()
@@ -690,6 +696,12 @@ func (w *world) exec(c *call, inCallback func()) []*hop {
 		if err == nil {
 			w.locals[c.g] = viewRec{nv, c.val}
 		}
+	case "realm":
+		// not an operation of the history (it touches neither flag nor map): the view must hand out a COPY of its realm - the
+		// caller overwrites it, and a view whose realm changed under it addresses other keys from now on
+		scribble(vr.v.Realm())
+
+		return nil
 	case "flush":
 		o = hop{kind: "flag"}
 		o.inv = w.clock.Add(1)
@@ -1608,10 +1620,15 @@ func main() {
 			rng, sub := r.Rng.Fork()
 			plan := genProbePlan(rng, rng.Intn(nWraps), rng.Range(6, 12), 24, 150, p == 1)
 			plan[0] += " race=1"
-			if died, oracle := runProbe(r, sub, plan, 10+p); died && oracle != "deadlock" {
-				r.Finish()
+			if died, oracle := runProbe(r, sub, plan, 10+p); died {
+				if oracle != "deadlock" && oracle != "race-free" {
+					r.Finish()
 
-				return
+					return
+				}
+				// a race report of the -race build: this process is not a -race build, its scenarios still run (and may
+				// show what the race does to the answers)
+				break
 			}
 		}
 	}
